@@ -1856,13 +1856,11 @@ def m_sorted(interp, it, key=None, reverse=False):
     order = []
     for i in range(len(items)):
         j = len(order)
-        while j > 0 and interp.truth(_lt(keys[i], keys[order[j - 1]])):
+        # reverse=True keeps the original order of equal keys too (it is not the reversed ascending sort)
+        while j > 0 and interp.truth(_lt(keys[order[j - 1]], keys[i]) if reverse else _lt(keys[i], keys[order[j - 1]])):
             j -= 1
         order.insert(j, i)
-    out = [items[i] for i in order]
-    if reverse:
-        raise NotEncodable("sorted reverse")
-    return out
+    return [items[i] for i in order]
 
 
 def _lt(a, b):
